@@ -10,25 +10,36 @@
 (* stored feature x sample), permute_features, permute_samples, split_vars,*)
 (* split_list, shuffle_list_samples (second list element stores the same   *)
 (* samples in another order), list_swap_sample_dims (two sample            *)
-(* dimensions, held in another relative order by the second list element). *)
+(* dimensions, held in another relative order by the second list element), *)
+(* two_sample_dims_permuted (two sample dimensions, each stored in another *)
+(* order: the scores belong to their (time, member) labels).               *)
+(* Option "weighted": both presentations are fitted with the same labelled *)
+(* weights object; weights belong to labels, so the relation moves the     *)
+(* data under them.                                                        *)
 (***************************************************************************)
 EXTENDS Naturals, FiniteSets, TLC
-CONSTANTS Classes, Relations, Names
+CONSTANTS Classes, Relations, Names, Options
 VARIABLES cfg, pred, phase
 vars == <<cfg, pred, phase>>
 \* EOFBootstrapper: a seeded resample draws sample POSITIONS, so for a fixed seed its
 \* members depend on the storage order of the samples by construction (not classified
 \* by the statement's exemption list; treated like the order-dependent methods)
+SamplePermutations == {"permute_samples", "two_sample_dims_permuted"}
 OrderDependent == {"ExtendedEOF", "OPA", "POP", "HilbertEOF", "HilbertMCA", "EOFBootstrapper"}
+\* classes whose fit takes user weights
+Weightable == {"EOF", "EOFstd", "ComplexEOF", "HilbertEOF", "ExtendedEOF", "POP", "OPA", "EOFRotator", "EOFBootstrapper", "MCA", "CPCCA", "CCA", "CPCCARotator"}
 Init == /\ phase = "cfg" /\ pred = [demanded |-> FALSE]
-        /\ \E c \in Classes, r \in Relations, n \in Names : cfg = [cls |-> c, rel |-> r, names |-> n]
+        /\ \E c \in Classes, r \in Relations, n \in Names, o \in Options :
+              /\ cfg = [cls |-> c, rel |-> r, names |-> n, opt |-> o]
+              \* weights are given as one labelled array per field: relations that keep one container per field
+              /\ (o = "weighted") => (r \in {"transpose", "permute_features", "permute_samples"} /\ c \in Weightable /\ n = "default")
 Do == /\ phase = "cfg" /\ phase' = "done" /\ UNCHANGED cfg
-      /\ pred' = [demanded |-> ~(cfg.rel = "permute_samples" /\ cfg.cls \in OrderDependent),
-                  scoresPermuted |-> cfg.rel = "permute_samples",
+      /\ pred' = [demanded |-> ~(cfg.rel \in SamplePermutations /\ cfg.cls \in OrderDependent),
+                  scoresPermuted |-> cfg.rel \in SamplePermutations,
                   invariant |-> {"singular_values", "components_at_each_label", "scores_at_each_label"}]
 Next == Do
 Spec == Init /\ [][Next]_vars
 C07_LayoutInvariant ==
-    phase = "done" => /\ (cfg.rel # "permute_samples") => pred.demanded
+    phase = "done" => /\ (cfg.rel \notin SamplePermutations) => pred.demanded
                       /\ (cfg.cls \notin OrderDependent) => pred.demanded
 =============================================================================
